@@ -210,13 +210,16 @@ func (r *Reader) traverseNode(n *html.Node, ctx *parseContext) {
 				ctx.listItems = nil
 			}
 
-			text := strings.TrimSpace(getTextContent(n))
-			if text != "" && !isBlockContainer(n) {
-				r.elements = append(r.elements, parsedElement{
-					Type: ElementParagraph,
-					Text: text,
-				})
-				return
+			// See traverseNodeFiltered: children first, text only for leaf-like blocks
+			if !isBlockContainer(n) {
+				text := strings.TrimSpace(getTextContent(n))
+				if text != "" {
+					r.elements = append(r.elements, parsedElement{
+						Type: ElementParagraph,
+						Text: text,
+					})
+					return
+				}
 			}
 			// If it's a block container (div with children), traverse children
 			for c := n.FirstChild; c != nil; c = c.NextSibling {
@@ -410,13 +413,18 @@ func (r *Reader) traverseNodeFiltered(n *html.Node, ctx *parseContext, elements 
 				ctx.listItems = nil
 			}
 
-			text := strings.TrimSpace(getTextContentFiltered(n, ctx.checker))
-			if text != "" && !isBlockContainer(n) {
-				*elements = append(*elements, parsedElement{
-					Type: ElementParagraph,
-					Text: text,
-				})
-				return
+			// Only a leaf-like block becomes a paragraph. Looking at the children
+			// first keeps deeply nested containers linear: collecting the text of
+			// every wrapper on the way down is quadratic in the nesting depth.
+			if !isBlockContainer(n) {
+				text := strings.TrimSpace(getTextContentFiltered(n, ctx.checker))
+				if text != "" {
+					*elements = append(*elements, parsedElement{
+						Type: ElementParagraph,
+						Text: text,
+					})
+					return
+				}
 			}
 			// If it's a block container (div with children), traverse children
 			for c := n.FirstChild; c != nil; c = c.NextSibling {
